@@ -401,6 +401,12 @@ func (pub *DSAPublicKey) Fingerprint() []byte {
 	return h.Sum(nil)
 }
 
+// isComplete reports whether all five numbers of the key are there (a key read from a file may lack some)
+func (priv *DSAPrivateKey) isComplete() bool {
+	k := &priv.PrivateKey
+	return k.P != nil && k.Q != nil && k.G != nil && k.Y != nil && k.X != nil
+}
+
 // Sign will generate a signature of a hashed data using dsa Sign.
 func (priv *DSAPrivateKey) Sign(rand io.Reader, hashed []byte) ([]byte, error) {
 	r, s, err := dsa.Sign(rand, &priv.PrivateKey, hashed)
